@@ -55,6 +55,25 @@ def worker(task):
     import itertools
     from . import vals as _vals
     _vals._counter = itertools.count()
+    if fq.startswith('writers:'):
+        # global frame fact decided on the ast of the whole repository (back end 'eval-ast')
+        from .writers import check as wcheck
+        field = fq[8:]
+        w = C.WRITERS[field]
+        try:
+            for name, ok, detail in wcheck(_REPO, field, w['allowed']):
+                out['results'].append({
+                    'name': name, 'props': list(w['props']), 'status': 'discharged' if ok else 'refuted',
+                    'time_s': 0.0, 'backend': 'eval-ast', 'reason': detail, 'trail': [], 'ob_kind': 'writers',
+                    'func': fq, 'receiver': None, 'func_kind': 'writers', 'lineno': None,
+                    'goal_str': f'{field} is written only in {w["allowed"]}', 'model_str': detail,
+                    'entry': {}, 'locals': {}, 'allowed_exceptions': [], 'static_violation': not ok})
+            out['info'] = {'paths_normal': 1, 'paths_raise': 0, 'vacuous': False, 'gen_s': 0.0, 'solve_s': 0.0,
+                           'alias_sites': [], 'func_kind': 'writers'}
+        except Exception as e:
+            out['error'] = f'{type(e).__name__}: {e}'
+        out['wall_s'] = round(time.time() - t0, 3)
+        return out
     try:
         fv = FunctionVerifier(_REPO)
         if fq.startswith('lemma:'):
@@ -79,9 +98,16 @@ def worker(task):
             out['info'] = dict(info, gen_s=time.time() - t0, alias_sites=[list(a) for a in fv.ex.alias_sites],
                                func_kind='init' if fi.node.name == '__init__' else fi.kind)
         entry_env = fv.ex.entry.env if fv.ex.entry else {}
+        retries = 0        # extended retries are expensive: at most three per function
+        unknowns = 0
         for ob in obs:
-            r = discharge(ob, timeout_ms)
-            if r.status == 'unknown' and ob.name in _BASELINE_NAMES:
+            # once several obligations of a function are undecided (typical for a changed function whose
+            # proof no longer goes through) the remaining ones get a single solver attempt each
+            r = discharge(ob, timeout_ms, single=unknowns >= 4)
+            if r.status == 'unknown':
+                unknowns += 1
+            if r.status == 'unknown' and ob.name in _BASELINE_NAMES and retries < 3:
+                retries += 1
                 # an obligation that is discharged on the committed baseline came back undecided: retry
                 # with the thorough budget before it is reported as failed (guards against a slow machine)
                 r2 = discharge(ob, max(timeout_ms * 4, 60000))
@@ -126,6 +152,9 @@ def select_tasks(prop, C):
     for name, lm in C.LEMMAS.items():
         if prop is None or prop in lm.props:
             tasks.append(('lemma:' + name, None))
+    for field, w in C.WRITERS.items():
+        if prop is None or prop in w['props']:
+            tasks.append(('writers:' + field, None))
     return tasks
 
 
@@ -162,7 +191,7 @@ def main(argv):
     if args.func is not None:
         tasks = []
         for fq in args.func:
-            if fq.startswith('lemma:'):
+            if fq.startswith('lemma:') or fq.startswith('writers:'):
                 tasks.append((fq, None))
                 continue
             c = C.CONTRACTS[fq]
